@@ -4318,7 +4318,7 @@ fn delete_char_range(value: &str, offset: usize, count: usize) -> String {
         chars.len()
     };
 
-    let e = if s + count < chars.len() {
+    let e = if s.saturating_add(count) < chars.len() {
         s + count
     } else {
         chars.len()
